@@ -27,11 +27,23 @@ THEOREMS = [
     (M, "C08.ftl_dup_variant_warnings", "one duplicate warning per variant whose key (type + text) occurs at least twice (multiset), then the plural warning"),
     (M, "C08.ftl_plural_warning", "plural warning iff a non-`other` category of the locale is used and some category is missing; one warning, at the first key, sorted distinct missing categories"),
     (M, "C08.plural_lookup", "categories are looked up by the locale, then by its part before the first '-'"),
+    (M, "C08.css_models_agree", "the Fluent-side and the DTD-side model of CSSCheckMixin.parse_css_spec return the same map and errors on every text"),
+    (M, "C08.css_grammar_accepts", "every spec of the independent grammar CssSpec (props/units read off the generated regex) is parsed without errors into exactly the dict of its declarations"),
+    (M, "C08.css_grammar_map_distinct", "with pairwise distinct property names that dict is the list of (property, unit) pairs as written"),
+    (M, "C08.css_grammar_not_bad", "a grammatical spec is never `cssBad`"),
+    (M, "C08.style_grammar_not_bad", "a style attribute whose value is one grammatical text element is never `badStyle`"),
+    (M, "C08.css_spec_errors", "a spec with defective gaps (white space without semicolon / junk) gives the map of all declarations and exactly one error per defective gap"),
+    (M, "C08.css_defect_bad", "any such defect makes the style bad (the check yields the error)"),
+    (M, "C08.css_missing_semicolon", "two correct blocks with only white space or nothing between them: exactly css-missing-semicolon at the end of the first, style bad"),
+    (M, "C08.css_junk_after", "junk after a correct spec: exactly css-bad-content at the end of the last declaration, style bad"),
+    (M, "C08.css_junk_before", "junk before a correct spec: exactly css-bad-content at 0, style bad"),
 ]
 PARTIAL = [
-    "`badStyle`/`cssBad` in ftl_error_iff is the verdict of the modelled parse_css_spec + check_style (regex level); that this verdict coincides with a "
-    "CSS declaration-list grammar is not proved, only checked differentially against an independent reference grammar in the harness "
-    "(which exposed the since fixed defect C08-css-adjacent-declarations)",
+    "`badStyle`/`cssBad` in ftl_error_iff is the verdict of the modelled parse_css_spec + check_style (regex level).  It is now related to an "
+    "independent grammar by theorems: every CssSpec value is accepted with exactly its declarations (css_grammar_accepts, soundness of the grammar "
+    "w.r.t. the code) and the defect classes missing semicolon / touching declarations / junk before, between, after are refused with exactly the "
+    "stated error (css_spec_errors and instances).  NOT proved: completeness (`cssBad v = false -> v is in the grammar`) for arbitrary texts, e.g. "
+    "`;;` or junk containing m/w/h; that direction is still only checked differentially against the harness's reference grammar `css_reference`",
     "the order of the `Missing attribute:` errors among themselves comes from a Python set iteration and is not modelled (theorems state the set with multiplicity, the harness canonicalises the run)",
     "the contents of the CSS *warning* texts (units mismatch / only in l10n / only in reference, incl. the in-place ref_map.pop across duplicate style attributes) are modelled and "
     "corresponded but have no theorem (the property does not mention them)",
@@ -55,8 +67,8 @@ LEVEL_TEXT = ("Lean 4 theorems over an executable transliteration of FluentCheck
               "warnings are characterised exactly. The model is tied to the Python by differential runs on FTL generated from a shape grammar and parsed "
               "by the real parser, for every locale of the plural table, and an independent shape-level oracle checks the claims on the implementation")
 LEVEL_NOTE = ("trusted: Lean kernel; hand-written model validated by full-result correspondence (severity, position, text, category); the AST is an "
-              "input (fluent.syntax is external); `not a parseable CSS spec` is the code's own regex verdict in the theorems (grammar only in the "
-              "harness oracle); set iteration order of the Missing-attribute run is canonicalised; plural table taken as given")
+              "input (fluent.syntax is external); `not a parseable CSS spec` is the code's own regex verdict in ftl_error_iff, related to an independent "
+              "grammar by css_grammar_accepts / css_spec_errors (soundness and the named defect classes; completeness only in the harness oracle); set iteration order of the Missing-attribute run is canonicalised; plural table taken as given")
 TECHNIQUE = "Lean 4 proof over an executable model of the three Fluent visitors + differential correspondence + shape-level oracle"
 
 # ------------------------------------------------------------------------------------------ shapes
